@@ -76,14 +76,14 @@ func blockVariants(w *racWorld, bd blockData, rng *rand.Rand) []proofVariant {
 //   ==> every implementation's roots after applying the block == specForest(Apply(A, dels, adds)).Roots
 func TestRAC_C05(t *testing.T) {
 	res := newRacResult("C05")
-	cfgs := []mapCfg{{Full: true, TotalRows: 63}, {Full: true, TotalRows: 0}, {Full: false, TotalRows: 63}, {Full: false, TotalRows: 3},
+	cfgs := []mapCfg{{Full: true, TotalRows: 63}, {Full: true, TotalRows: 0}, {Full: false, TotalRows: 63}, {Full: false, TotalRows: 3}, {Full: false, TotalRows: 0},
 		{Full: false, TotalRows: 63, NoRemember: true}, {Full: false, TotalRows: 0, NoRemember: true}}
 	if res.thorough() {
 		cfgs = racMapCfgs(true)
 	}
-	maxLeaves, maxBlocks := 6, 2
+	maxLeaves, maxBlocks := 6, 3
 	if res.thorough() {
-		maxLeaves, maxBlocks = 7, 3
+		maxLeaves, maxBlocks = 7, 4
 	}
 	rng := rand.New(rand.NewSource(res.Seed + 505))
 	n, accepted := 0, 0
@@ -167,6 +167,18 @@ func TestRAC_C05(t *testing.T) {
 				}
 				p = safely(func() { e = m.Modify(lv, v.hashes, v.proof) })
 				chk("MapPollard.Modify.rac.applied", w.cfgs[i].String(), m.GetRoots(), m.GetNumLeaves(), e, p)
+			}
+			// forests started from the bare roots of the pre-block state (light and full), as a bridge node would
+			for _, fullFlag := range []bool{false, true} {
+				fm := NewMapPollardFromRoots(cloneHashes(base.spec.Roots()), base.spec.n, fullFlag)
+				var fe error
+				fp := safely(func() {
+					fe = fm.Verify(v.hashes, v.proof, true)
+					if fe == nil {
+						fe = fm.Modify(bd.leaves, v.hashes, v.proof)
+					}
+				})
+				chk("MapPollard.Modify.rac.applied-from-roots", fmt.Sprintf("NewMapPollardFromRoots(full=%v)", fullFlag), fm.GetRoots(), fm.GetNumLeaves(), fe, fp)
 			}
 			res.eval("C17.preserves.block")
 			if !sn.unchanged() {
